@@ -180,6 +180,8 @@ where
     // The first reported interval is x0 -> x0 +/- |first_step|, but never beyond xend
     let first_output = options.first_step.map(|h| h.abs().min((xend - x0).abs()));
     let mut default_solout = DefaultSolOut::new(f, options.t_eval.clone(), options.dense_output, first_output, x0, n_states);
+    // Requested times are matched against step ends with an absolute tolerance: keep it below the interval length
+    default_solout.limit_tolerance(xend - x0);
 
     // Dispatch by method
     let result = match options.method {
